@@ -308,7 +308,7 @@ def _properties_part(e, node, cls, kw, fields, defaults, sort_keys, scenario, fr
             scenario.update(accessor="get_properties", got=[n for _, n in got_p], expected=exp_names)
             extra = [n for _, n in got_p if n not in exp_names]
             kinds = dict(pfields)
-            if extra and all(kinds[n] == "pninc" for n in extra) and [n for _, n in got_p if n in exp_names] == exp_names:
+            if extra and all(kinds.get(n) == "pninc" for n in extra) and [n for _, n in got_p if n in exp_names] == exp_names:
                 e.fail("non-init-and-non-compare-field-yielded-under-skip_non_init", scenario=scenario)
             e.fail("get-properties-mismatch", scenario=scenario)
         for v, n in got_p:
